@@ -26,3 +26,24 @@ func VerifClientArgs(a any) (nodeID, pub string, iat int, err error) {
 	}
 	return ca.nodeID.Hex(), ca.publicKey.Hex(), ca.iatMode, nil
 }
+
+// VerifLenTable returns the length table (lengths, in table order) an obfs4
+// connection currently samples from, and its IAT mode.
+func VerifLenTable(c interface{}) (table []int, iatMode int, ok bool) {
+	oc, isConn := c.(*obfs4Conn)
+	if !isConn {
+		return nil, 0, false
+	}
+	table, _, _, _ = oc.lenDist.VerifTable()
+	return table, oc.iatMode, true
+}
+
+// VerifBufferSizes returns the number of bytes an obfs4 connection holds in
+// its receive buffers (undecoded ciphertext, decoded payload).
+func VerifBufferSizes(c interface{}) (ciphertext, decoded int, ok bool) {
+	oc, isConn := c.(*obfs4Conn)
+	if !isConn {
+		return 0, 0, false
+	}
+	return oc.receiveBuffer.Len(), oc.receiveDecodedBuffer.Len(), true
+}
